@@ -256,7 +256,15 @@ pub struct StmtSpec
     pub preamble: Preamble,
     /// directive comment after the statement (same line) — must have no effect on it
     pub trailing_directive: Option<DirKind>,
+    /// whitespace between the macro name and `!` (index into NAME_GAPS; 0 = none)
+    #[serde(default)]
+    pub name_gap: u8,
+    /// whitespace between `!` and `(` (index into NAME_GAPS; 0 = none)
+    #[serde(default)]
+    pub bang_gap: u8,
 }
+
+pub const NAME_GAPS: &[&str] = &["", " ", "\t", "\n    ", "  "];
 
 pub const GAPS: &[&str] = &[
     "",
@@ -354,6 +362,8 @@ pub const PREFIXES: &[&str] = &[
     "[ref: 0000000042] ",
     "[ref: 4294967296] ",
     "[ref: 12345678901] ",
+    "[ref: 18446744073709551616] ",
+    "[ref: 340282366920938463463374607431768211456] ",
     "[ref:1] ",
     "[ref: abc] ",
     "[Ref: 1] ",
@@ -365,10 +375,26 @@ pub const PREFIXES: &[&str] = &[
     "ref: 5 ",
     "[ref: 5",
     "(ref: 5) ",
+    "\\\n        continued ",
+    "\\\r\n    [ref: 8] after a continuation ",
 ];
 pub const ARGS: &[&str] = &["1", "x", "name = 5", "s.len()", "\"lit\"", "a + b", "f(1, 2)", "\"[ref: 4] \""];
 pub const REF_VALUES_VALID: &[&str] = &["1", "7", "42", "0", "007", "4294967295", "123456", "0000000009"];
-pub const REF_VALUES_UNUSABLE: &[&str] = &["x", "\"5\"", "4294967296", "1.5", "next_id()", "id", "99999999999", "\"abc\""];
+pub const REF_VALUES_UNUSABLE: &[&str] = &[
+    "x",
+    "\"5\"",
+    "4294967296",
+    "1.5",
+    "next_id()",
+    "id",
+    "99999999999",
+    "\"abc\"",
+    "18446744073709551615",
+    "18446744073709551616",
+    "184467440737095516150",
+    "340282366920938463463374607431768211456",
+    "00000000000000000000000000000000000000000000000001x",
+];
 
 fn kv_strategy() -> BoxedStrategy<Kv>
 {
@@ -502,13 +528,13 @@ pub fn stmt(p: &StmtParams) -> BoxedStrategy<StmtSpec>
     (
         (0usize..p.n_macros.max(1), any::<bool>(), target, kvs, ref_kv),
         (prefix, msg_body(), vec(select(ARGS).prop_map(|s| s.to_string()), 0..3), any::<bool>()),
-        (gaps, before, after, preamble, trailing_dir),
+        (gaps, before, after, preamble, trailing_dir, weighted(p.p_layout / 6, (1u8..NAME_GAPS.len() as u8).boxed(), 0u8), weighted(p.p_layout / 6, (1u8..NAME_GAPS.len() as u8).boxed(), 0u8)),
     )
         .prop_map(
             |(
                 (macro_idx, qualified, target, kvs, ref_kv),
                 (msg_prefix, msg_body, args, trailing_comma),
-                (gaps, before, after, preamble, trailing_directive),
+                (gaps, before, after, preamble, trailing_directive, name_gap, bang_gap),
             )| {
                 StmtSpec {
                     macro_idx,
@@ -525,6 +551,8 @@ pub fn stmt(p: &StmtParams) -> BoxedStrategy<StmtSpec>
                     after,
                     preamble,
                     trailing_directive,
+                    name_gap,
+                    bang_gap,
                 }
             },
         )
@@ -881,7 +909,9 @@ pub fn render_stmt_text(s: &StmtSpec, cfg: &ConfigSpec) -> (String, usize, usize
         t.push_str("::");
     }
     t.push_str(&m.name);
+    t.push_str(NAME_GAPS[s.name_gap as usize % NAME_GAPS.len()]);
     t.push('!');
+    t.push_str(NAME_GAPS[s.bang_gap as usize % NAME_GAPS.len()]);
     let paren = t.len();
     t.push('(');
     let mut g = GapIter { gaps: &s.gaps, pos: 0 };
